@@ -46,6 +46,37 @@ def harvested_methods():
     return sorted(n for n in out if n and n not in ("linear", "constant", "cubic", "spline"))
 
 
+def harvested_dataset_names():
+    """names that exist in the namespaces of the dataset modules (helpers such as load_csv_dataset_from_resources,
+    load_dataset_description, get_data_home; classes, constants, sub-modules), with and without the prefixes a loader
+    table built by reflection would strip, in both spellings - none of them is a documented dataset"""
+    import importlib
+    import pkgutil
+    from ..core import repo_on_path
+    repo_on_path()
+    import traffic_weaver.datasets as D
+    import traffic_weaver.datasets._datasets as DS
+    mods = [D] + [importlib.import_module(f"traffic_weaver.datasets.{m.name}") for m in pkgutil.iter_modules(D.__path__)]
+    documented = {n for n in dir(DS) if n.startswith(("load_", "fetch_"))}
+    names = set()
+    for m in mods:
+        for n in dir(m):
+            if n.startswith("__") or not n.isascii():
+                continue
+            names.add(n)
+            for pre in ("load_", "fetch_", "get_", "clear_", "_"):
+                if n.startswith(pre):
+                    names.add(n[len(pre):])
+    out = []
+    for n in sorted(names):
+        if not n or ("load_" + n) in documented or ("fetch_" + n) in documented or n in documented:
+            continue
+        out.append(n)
+        if "_" in n.strip("_"):
+            out.append(n.replace("_", "-"))
+    return out
+
+
 def history(rng):
     ops = []
     for _ in range(rng.randint(0, 5)):
@@ -174,6 +205,11 @@ def cases(rng, tier):
         c = W.gen_init(rng, 5, 10)
         c.update({"x_none": False, "cls": "bad_method", "queries": [], "ops": history(rng)[:2]})
         c["ops"].append({"op": "interp", "method": name, "force": True, **({"n": rng.randint(2, 9)} if rng.random() < 0.5 else {"grid": ["1/2"]})})
+        yield c
+    # every name of the dataset modules' own namespaces that is not a documented dataset, once
+    for name in harvested_dataset_names():
+        c = W.gen_init(rng, 5, 6)
+        c.update({"x_none": False, "cls": "dataset", "queries": [], "ops": [], "dataset": name, "bad_home": False})
         yield c
     for _ in range(n_):
         yield gen(rng)
